@@ -7,6 +7,7 @@ import (
 	"os"
 	"path/filepath"
 	"strings"
+	"sync"
 	"unicode/utf8"
 
 	yaml3 "gopkg.in/yaml.v3"
@@ -76,6 +77,17 @@ func sensitiveSpec(rng *rand.Rand) *specs.Spec {
 	return s
 }
 
+// sensitiveSpecPlain: a generated Spec whose strings are outside the two known-finding classes
+func sensitiveSpecPlain(rng *rand.Rand) *specs.Spec {
+	s := &specs.Spec{Version: specs.CurrentVersion, Kind: "vendor.com/class", ContainerEdits: specs.ContainerEdits{Env: []string{"SPEC=level"}}}
+	for i := 0; i < 1+rng.Intn(3); i++ {
+		s.Devices = append(s.Devices, specs.Device{Name: fmt.Sprintf("dev%d", i), ContainerEdits: specs.ContainerEdits{
+			Env:    []string{fmt.Sprintf("I=%d", i), "V=" + []string{"yes", "0123", "a: b", "#c", "日本語"}[rng.Intn(5)]},
+			Mounts: []*specs.Mount{{HostPath: "/h", ContainerPath: fmt.Sprintf("/c/%d", i), Options: []string{"ro", "bind"}}}}})
+	}
+	return s
+}
+
 func (codecStream) Generate(rng *rand.Rand, tier string, emit func(Case)) {
 	n := 120
 	if tier == "thorough" {
@@ -90,6 +102,38 @@ func (codecStream) Generate(rng *rand.Rand, tier string, emit func(Case)) {
 		inv := &specs.Spec{Version: specs.CurrentVersion, Kind: "vendor.com/class", Devices: []specs.Device{
 			{Name: "good", ContainerEdits: specs.ContainerEdits{Env: []string{"A=b"}}}, {Name: "hollow"}}}
 		emit(Case{"op": "roundtrip", "spec": specToProto(inv), "emptylists": which})
+	}
+	// each kind of edit alone, at Spec level and at device level (what an encoder may take for "nothing to write")
+	u32 := func(v uint32) *uint32 { return &v }
+	_ = u32
+	for k := 0; k < 7; k++ {
+		single := func() specs.ContainerEdits {
+			switch k {
+			case 0:
+				return specs.ContainerEdits{AdditionalGIDs: []uint32{7, 8}}
+			case 1:
+				return specs.ContainerEdits{IntelRdt: &specs.IntelRdt{ClosID: "only"}}
+			case 2:
+				return specs.ContainerEdits{IntelRdt: &specs.IntelRdt{}}
+			case 3:
+				return specs.ContainerEdits{Mounts: []*specs.Mount{{HostPath: "/h", ContainerPath: "/c"}}}
+			case 4:
+				return specs.ContainerEdits{Hooks: []*specs.Hook{{HookName: "poststop", Path: "/bin/h"}}}
+			case 5:
+				return specs.ContainerEdits{DeviceNodes: []*specs.DeviceNode{{Path: "/dev/only"}}}
+			}
+			return specs.ContainerEdits{AdditionalGIDs: []uint32{0}}
+		}
+		atSpec := &specs.Spec{Version: specs.CurrentVersion, Kind: "vendor.com/class", ContainerEdits: single(),
+			Devices: []specs.Device{{Name: "dev0", ContainerEdits: specs.ContainerEdits{Env: []string{"A=b"}}}}}
+		emit(Case{"op": "roundtrip", "spec": specToProto(atSpec)})
+		atDev := &specs.Spec{Version: specs.CurrentVersion, Kind: "vendor.com/class",
+			Devices: []specs.Device{{Name: "dev0", ContainerEdits: specs.ContainerEdits{Env: []string{"A=b"}}}, {Name: "dev1", ContainerEdits: single()}}}
+		emit(Case{"op": "roundtrip", "spec": specToProto(atDev)})
+	}
+	// concurrent writers of different names through one cache
+	for k := 0; k < 3; k++ {
+		emit(Case{"op": "roundtrip", "spec": specToProto(sensitiveSpecPlain(rng)), "writers": 12})
 	}
 	// sizes: files beyond 64 KiB and 1 MiB (many devices; one very long string), both encodings
 	for _, nd := range []int{400, 2500} {
@@ -229,6 +273,47 @@ func (codecStream) Execute(c Case) {
 		}
 		_ = os.RemoveAll(codecRoot)
 		defer os.RemoveAll(codecRoot)
+		if w := kindIdx(c["writers"]); w > 0 {
+			// several goroutines write their own Spec (the given one plus a marker) under their own name through one
+			// cache, over and over, each reading its own file back after every write
+			dir := filepath.Join(codecRoot, "conc")
+			cache, _ := cdi.NewCache(cdi.WithSpecDirs(dir), cdi.WithAutoRefresh(false))
+			worst := map[string]string{"json": "equal", "yaml": "equal", "noext": "equal"}
+			var mu sync.Mutex
+			var wg sync.WaitGroup
+			for g := 0; g < w; g++ {
+				wg.Add(1)
+				go func(g int) {
+					defer wg.Done()
+					mine := *s
+					mine.ContainerEdits.Env = append(append([]string{}, s.ContainerEdits.Env...), fmt.Sprintf("WRITER=%d", g))
+					mine.Devices = append([]specs.Device{}, s.Devices...)
+					for k := 0; k < g%3; k++ { // different sizes
+						mine.Devices = append(mine.Devices, specs.Device{Name: fmt.Sprintf("extra%d", k), ContainerEdits: specs.ContainerEdits{Env: []string{"PAD=" + strings.Repeat("z", 100*(g+1))}}})
+					}
+					key := []string{"json", "yaml", "noext"}[g%3]
+					name := fmt.Sprintf("w%d", g) + map[string]string{"json": ".json", "yaml": ".yaml", "noext": ""}[key]
+					file := filepath.Join(dir, fmt.Sprintf("w%d", g)+map[string]string{"json": ".json", "yaml": ".yaml", "noext": ".yaml"}[key])
+					for i := 0; i < 40; i++ {
+						st := "unwritable"
+						if err := cache.WriteSpec(&mine, name); err == nil {
+							st = rtStatus(&mine, file)
+						}
+						if st != "equal" {
+							mu.Lock()
+							worst[key] = st
+							mu.Unlock()
+							return
+						}
+					}
+				}(g)
+			}
+			wg.Wait()
+			for k, v := range worst {
+				obs[k] = v
+			}
+			return
+		}
 		for _, enc := range []struct{ key, name, file string }{{"json", "t.json", "t.json"}, {"yaml", "t.yaml", "t.yaml"}, {"noext", "t", "t.yaml"}} {
 			dir := filepath.Join(codecRoot, enc.key)
 			cache, _ := cdi.NewCache(cdi.WithSpecDirs(dir), cdi.WithAutoRefresh(false))
